@@ -5,10 +5,14 @@ package main
 // configuration-locality rules and the C07 pairwise selection comparison.
 
 import (
+	"crypto/rsa"
 	"fmt"
+	"math/big"
 	"strings"
+	"sync"
 
 	toml "github.com/pelletier/go-toml"
+	"github.com/zmap/zlint/v3/lint"
 )
 
 func tomlLoad(s string) (*toml.Tree, error) { return toml.Load(s) }
@@ -114,6 +118,7 @@ func (h *histState) oraclePhase() {
 			}
 			continue
 		}
+		h.fermatModel(rec, o, cfgText)
 		for _, n := range sortedKeys(rec.canon.Results) {
 			got := rec.canon.Results[n]
 			if rec.script != nil && isProbeName(n) {
@@ -307,3 +312,126 @@ func (h *histState) pairwise() {
 		}
 	}
 }
+
+// ---------------------------------------------------------------- a reference model for one option
+
+// The fresh-process reference is the implementation itself: what an option *means* is invisible to it.
+// For the one option whose meaning is plain arithmetic - the number of rounds of Fermat's method the
+// factorization lint may spend - the harness has an independent model: its synthetic keys come from a pool
+// of moduli that the textbook method factors in a known number K of rounds, so under Rounds = R the
+// verdict on such a key is error iff R >= K, and pass otherwise (no rounds, nothing found). R is read from
+// the configuration text by the harness (the section's key as go-toml matches it to the field: as written,
+// lower case, upper case, first letter lower case); the default is the one the generated example documents.
+const fermatLint = "e_rsa_fermat_factorization"
+
+var fermatK = func() map[string]int {
+	m := map[string]int{}
+	for _, e := range fermatPool {
+		if n, ok := new(big.Int).SetString(e.N, 16); ok {
+			m[n.String()] = e.K
+		}
+	}
+	return m
+}()
+
+var fermatDefaultRounds = func() func() (int64, bool) {
+	var once sync.Once
+	var v int64
+	var ok bool
+	return func() (int64, bool) {
+		once.Do(func() {
+			b, err := lint.GlobalRegistry().DefaultConfiguration()
+			if err != nil {
+				return
+			}
+			t, err := toml.LoadBytes(b)
+			if err != nil {
+				return
+			}
+			if sec, isT := t.Get(fermatLint).(*toml.Tree); isT {
+				v, ok = sec.Get("Rounds").(int64)
+			}
+		})
+		return v, ok
+	}
+}()
+
+func fermatRounds(cfgText string) (r int64, known bool) {
+	def, ok := fermatDefaultRounds()
+	if !ok {
+		return 0, false
+	}
+	if strings.TrimSpace(cfgText) == "" {
+		return def, true
+	}
+	t, err := toml.Load(cfgText)
+	if err != nil {
+		return 0, false
+	}
+	raw := t.Get(fermatLint)
+	if raw == nil {
+		return def, true
+	}
+	sec, isT := raw.(*toml.Tree)
+	if !isT {
+		return 0, false
+	}
+	found := 0
+	for _, k := range []string{"Rounds", "rounds", "ROUNDS"} {
+		if v := sec.Get(k); v != nil {
+			n, isInt := v.(int64)
+			if !isInt {
+				return 0, false
+			}
+			r = n
+			found++
+		}
+	}
+	switch found {
+	case 0:
+		return def, true
+	case 1:
+		return r, true
+	}
+	return 0, false // the same option under two spellings: which one wins is nobody's promise
+}
+
+func (h *histState) fermatModel(rec *lintRecord, o *objState, cfgText string) {
+	if o.spec.Kind != KCert || rec.inject != "" || rec.script != nil {
+		return
+	}
+	got, ok := rec.canon.Results[fermatLint]
+	if !ok || (got.S != int(lint.Pass) && got.S != int(lint.Error)) {
+		return
+	}
+	pk, isRSA := o.parsed.Cert.PublicKey.(*rsa.PublicKey)
+	if !isRSA || pk.N == nil {
+		return
+	}
+	K, weak := fermatK[pk.N.String()]
+	if !weak {
+		return
+	}
+	R, known := fermatRounds(cfgText)
+	if !known {
+		return
+	}
+	h.checks++
+	h.ctr.inc("fermat_model_checks")
+	want := int(lint.Pass)
+	if R >= int64(K) {
+		want = int(lint.Error)
+	}
+	if R < int64(K) {
+		h.ctr.inc("fermat_model_rounds_below_k")
+	}
+	if R <= 0 {
+		h.ctr.inc("fermat_model_rounds_not_positive")
+	}
+	if got.S != want {
+		h.violate(Violation{Property: "C11", Class: "option_semantics", Lint: fermatLint, Op: rec.op,
+			Detail:   fmt.Sprintf("the registry's configuration sets Rounds = %d; Fermat's method factors this key in exactly %d rounds", R, K),
+			Expected: statusName(want), Got: got.String()})
+	}
+}
+
